@@ -17,7 +17,8 @@ import WinterProofs.Lemmas.C14Series
 import WinterProofs.Lemmas.C14Split
 
 namespace WinterProofs.C14
-open Model.Parallel Model.Fft
+open Model.Parallel
+open Model.Fft (brev permuteIndex isPow2)
 
 /-! ## (1) commutation: every interleaving of non-interfering tasks = the sequential order -/
 
@@ -116,6 +117,53 @@ theorem trace_fragments_partition (a b : Nat) (ha : 3 ≤ a) (hb1 : 1 ≤ b) (hb
     Partition ((List.range (2 ^ (a - b))).map (fun i => (i * 2 ^ b, 2 ^ b))) (2 ^ a) :=
   ⟨traceFragments_eq a b ha hb1 hb, traceFragments_partition a b hb⟩
 
+/-- the alignment `acc_column` relies on: the slice has `2^e` elements, the divisor period is `2^c`, and the minimum
+    batch size `m` handed to `batch_iter_mut!` is at least the period — then, for EVERY thread count, every batch starts
+    at a multiple of the period (so the batch-local index `i % z.len()` is the global one) -/
+theorem acc_column_batches_aligned (e c m threads : Nat) (hm : 2 ^ c ≤ m) :
+    ∃ l, batchIterMut (2 ^ e) (some m) threads = some l ∧ ∀ p ∈ l, p.1 % 2 ^ c = 0 := by
+  have hc := Nat.two_pow_pos c
+  have hm0 : (some m : Option Nat) ≠ some 0 := by
+    intro h; have : m = 0 := Option.some.inj h; omega
+  obtain ⟨l, h1, _, h3⟩ := batchIterMut_partition (2 ^ e) (some m) threads hm0
+  refine ⟨l, h1, ?_⟩
+  intro p hp
+  obtain ⟨i, hi, rfl⟩ := List.getElem_of_mem hp
+  rw [h3 i hi]
+  obtain ⟨b, hb⟩ := nextPow2_isPow threads
+  rw [hb]
+  -- either one batch (offset 0) or batch size 2^(e-b) ≥ m ≥ 2^c
+  by_cases hlt : 2 ^ e / 2 ^ b < m
+  · have : l = [(0, 2 ^ e)] := by
+      have h1' := h1
+      simp only [batchIterMut, hb, Option.getD, hlt, ↓reduceIte] at h1'
+      exact (Option.some.inj h1').symm
+    subst this
+    have : i = 0 := by simpa using hi
+    subst this; simp
+  · have hbe : b ≤ e := by
+      rcases Nat.lt_or_ge e b with h | h
+      · have : 2 ^ e / 2 ^ b = 0 := Nat.div_eq_of_lt (Nat.pow_lt_pow_right (by decide) h)
+        omega
+      · exact h
+    rw [two_pow_div e b hbe] at hlt ⊢
+    have hce : c ≤ e - b := by
+      rcases Nat.lt_or_ge (e - b) c with h | h
+      · have : 2 ^ (e - b) < 2 ^ c := Nat.pow_lt_pow_right (by decide) h
+        omega
+      · exact h
+    have hd : 2 ^ (e - b) = 2 ^ c * 2 ^ (e - b - c) := by rw [← Nat.pow_add]; congr 1; omega
+    rw [hd, ← Nat.mul_assoc, Nat.mul_comm i, Nat.mul_assoc]
+    exact Nat.mul_mod_right _ _
+
+/-- a minimum below the period is NOT enough: 256 constraint-evaluation rows (8 trace rows, blowup 32), minimum 16
+    (`MIN_FRAGMENT_SIZE`) instead of 128, 16 threads — the second batch starts at row 16, inside a period of 32 -/
+theorem acc_column_min_below_period_fails :
+    ∃ l, batchIterMut 256 (some 16) 16 = some l ∧ ∃ p ∈ l, p.1 % 32 ≠ 0 :=
+  ⟨_, rfl, (16, 16), by decide, by decide⟩
+
+/-- with the code's minimum of 128 the same input is one batch -/
+example : batchIterMut 256 (some 128) 16 = some [(0, 256)] := by decide
 /-- `acc_column` (transition divisor branch) indexes the inverse divisor evaluations with the batch-local index,
     `z[i % z.len()]`, although `z` is periodic in the GLOBAL row index `batch_offset + i`. Whenever batches are used
     (`batch_size = 2^e / 2^b ≥ 128`, the macro's minimum) every batch offset `k * batch_size` is a multiple of
